@@ -648,6 +648,10 @@ class Kernel:
             tgt = {"exe": p.exe, "cwd": p.cwd, "root": "/"}[name]
             if p.zombie or tgt is None:
                 raise oserr(errno.ENOENT, path)
+            if isinstance(tgt, int):
+                # the kernel refuses this link of a live process with another
+                # errno (ESRCH: psutil issue 503)
+                raise oserr(tgt, path)
             return Link(tgt)
         if name in ("fd", "fdinfo"):
             if name in p.unreadable:
